@@ -353,6 +353,56 @@ var corpus = []scripted{
 			h.goodSuffix()
 		})
 	}},
+	{"connection lost in the payload of a skipped big at-least-once message; its PUBACK goes out on the next connection", func() seqOpts { o := baseOpts(); o.bufSize = 64; return o }(), func(h *hist) {
+		h.quiet(func() {
+			h.sc.budgetIn = 0
+			big := make([]byte, 150)
+			for i := range big {
+				big[i] = byte(i)
+			}
+			h.sc.opts.lossRate = 1000 // the scripted broker sends nothing of its own: every packet below is explicit
+			pk := brokerPublish(1, false, 7, "in/big", big)
+			h.sc.inject = [][]byte{pk[:100]}
+			h.doRead() // connects, hands out the BigMessage
+			h.doRead() // the application skips it; the connection ends inside the payload
+			h.sc.inject = [][]byte{brokerPublish(0, false, 0, "in/last", []byte("z"))}
+			h.drain(4) // the acknowledgement of the returned message goes out on the new connection
+			h.goodSuffix()
+		})
+	}},
+	{"connection lost in the payload of a skipped big exactly-once message; marker and PUBREC on the next connection", func() seqOpts { o := baseOpts(); o.bufSize = 64; return o }(), func(h *hist) {
+		h.quiet(func() {
+			h.sc.budgetIn = 0
+			big := make([]byte, 150)
+			for i := range big {
+				big[i] = byte(i)
+			}
+			h.sc.opts.lossRate = 1000 // the scripted broker sends nothing of its own: every packet below is explicit
+			pk := brokerPublish(2, false, 7, "in/big", big)
+			h.sc.inject = [][]byte{pk[:100]}
+			h.doRead() // connects, hands out the BigMessage
+			h.doRead() // the application skips it; the connection ends inside the payload
+			h.sc.inject = [][]byte{brokerPublish(0, false, 0, "in/last", []byte("z"))}
+			h.drain(4) // the acknowledgement of the returned message goes out on the new connection
+			h.goodSuffix()
+		})
+	}},
+	{"PUBREL carrying the identifiers of the client's own pending publishes: answered with PUBCOMP, the records stay", baseOpts(), func(h *hist) {
+		h.quiet(func() {
+			h.sc.budgetIn = 0
+			h.connectQuiet()
+			h.sc.opts.lossRate = 1000 // the broker keeps every acknowledgement back
+			h.pubP(1, false, []byte("A"), "t")
+			h.pubP(2, false, []byte("B"), "t")
+			h.sc.inject = [][]byte{ack4(0x62, 0x8000), ack4(0x62, 0xc000), brokerPublish(0, false, 0, "in/x", []byte("x"))}
+			h.doRead()
+			h.sc.opts.lossRate = 0
+			h.sc.forceDialFail = false
+			h.sc.inject = nil
+			h.doRead() // the connection ends
+			h.goodSuffix() // both publishes are resent and complete
+		})
+	}},
 	{"F25: the broker lost its session between PUBREC and PUBREL; its next message reuses the identifier", baseOpts(), func(h *hist) {
 		h.quiet(func() {
 			h.sc.budgetIn = 0
@@ -681,7 +731,7 @@ func init() {
 		return o
 	})
 	runners["C04"] = histRunner("C04", "c04_run", false, 250, 3000, inbound)
-	runners["C05"] = histRunner("C05", "c05_run", false, 250, 3000, outbound)
+	runners["C05"] = histRunner("C05", "c05_run_full", false, 250, 3000, outbound)
 	runners["C07"] = histRunner("C07", "c07_run", false, 250, 3000, inbound)
 	runners["C10"] = histRunner("C10", "c10_run", false, 250, 3000, general)
 	runners["C11"] = histRunner("C11", "c11_run", false, 250, 3000, func(r *rng, i int) seqOpts { o := general(r, i); o.hostile = r.chance(1, 3); return o })
